@@ -117,13 +117,13 @@ class ClaytonCopula(LevyCopula):
         eta, theta = self.eta, self.theta
 
         def fun_b(e, u):
-            res_b = np.where(e >= 0, np.sign(u - 1 + eta), np.sign(u - eta))
+            res_b = np.where(e >= 0, np.sign(u - (1 - eta)), np.sign(u - eta))
             return res_b
 
         def fun_c(e, u):
             res_c = np.where(
                 e >= 0,
-                np.where(u >= 1 - eta, (u - 1 + eta) / eta, (1 - eta - u) / (1 - eta)),
+                np.where(u >= 1 - eta, (u - (1 - eta)) / eta, (1 - eta - u) / (1 - eta)),
                 np.where(u >= eta, (u - eta) / (1 - eta), (eta - u) / eta),
             )
             return res_c
